@@ -74,10 +74,10 @@ unsafe fn find_vdso_clock_get_time(
     // Bail if we didn't find the clock st_name_offset
     let clock_alias = clock_gettime_st_name_offset?;
     let function_pointer_info = find_dynsym_ptr_of_name_offset(clock_alias, &dyn_syms, vdso)?;
-    // Should be some instruction section, alignment can vary, have found 16
-    let containing_section = section_start.add(function_pointer_info.section).read();
-    let fptr_align = containing_section.0.sh_addralign as usize;
-    let fn_addr = vdso.add(align(function_pointer_info.addr_offset, fptr_align));
+    // The symbol's value is the function's address in the image, the alignment of the section
+    // it lies in says nothing about it (rounding up to it picks another address whenever the
+    // function isn't placed on a multiple of the section's alignment)
+    let fn_addr = vdso.add(function_pointer_info.addr_offset);
     let func: extern "C" fn(i32, *mut TimeSpec) -> i32 = core::mem::transmute(fn_addr);
     Some(func)
 }
@@ -124,7 +124,6 @@ unsafe fn find_dynstr_st_name_offset_of(
 
 struct FnPtrInfo {
     addr_offset: usize,
-    section: usize,
 }
 
 #[inline]
@@ -149,7 +148,6 @@ unsafe fn find_dynsym_ptr_of_name_offset(
             // `info_to_type` on `st_type`
             return Some(FnPtrInfo {
                 addr_offset: sym.0.st_value as usize,
-                section: sym.0.st_shndx as usize,
             });
         }
         offset += core::mem::size_of::<ElfSymbol>();
